@@ -4,5 +4,8 @@ set -e
 cd "$(dirname "$0")/sim"
 export GOFLAGS=-mod=mod GOPROXY=off GOSUMDB=off GOTOOLCHAIN=local
 export GOCACHE="${GOCACHE:-/var/tmp/verif-gocache}"
-go build -o /dev/null ./cmd/zvsim
+OVL="$(mktemp /var/tmp/zvovl.XXXXXX)"
+printf '{"Replace": {"/repo/eth2/pool/zz_verif_export.go": "%s/overlay/pool_export.go.txt"}}' "$PWD" > "$OVL"
+go build -overlay "$OVL" -o /dev/null ./cmd/zvsim
+rm -f "$OVL"
 echo "setup ok"
